@@ -786,7 +786,7 @@ func (t *tr) leanType(n ast.Node, ty types.Type) string {
 		}
 	case *types.Interface:
 		if ty.String() == "error" {
-			return "Unit"
+			return "Bool" // an error value is rendered as the flag "non-nil"
 		}
 	}
 	t.fail(n, "type %s", ty)
@@ -819,6 +819,9 @@ func (t *tr) zero(n ast.Node, ty types.Type) string {
 	case *types.Struct:
 		return "({} : " + t.leanType(n, ty) + ")"
 	case *types.Interface:
+		if ty.String() == "error" {
+			return "false"
+		}
 		return "()"
 	}
 	t.fail(n, "zero value of %s", ty)
@@ -1247,7 +1250,11 @@ func (t *tr) stmt(sb *strings.Builder, s ast.Stmt, ind string) bool {
 				return true
 			}
 		} else {
-			for _, r := range x.Results {
+			for i, r := range x.Results {
+				if id, ok := r.(*ast.Ident); ok && id.Name == "nil" && i < t.results.Len() {
+					vals = append(vals, t.zero(r, t.results.At(i).Type())) // nil of the result's type
+					continue
+				}
 				vals = append(vals, t.expr(r))
 			}
 		}
@@ -1733,6 +1740,16 @@ func (t *tr) expr(e ast.Expr) string {
 	case *ast.Ident:
 		switch x.Name {
 		case "nil":
+			if have && tv.Type != nil {
+				switch u := tv.Type.Underlying().(type) {
+				case *types.Interface:
+					return "false" // nil error
+				case *types.Pointer:
+					if _, ok := u.Elem().Underlying().(*types.Struct); ok {
+						return t.zero(e, tv.Type) // nil pointer to a struct: the zero struct (callers look at the error flag)
+					}
+				}
+			}
 			return "[]"
 		case "true", "false":
 			return x.Name
@@ -1791,6 +1808,11 @@ func (t *tr) expr(e ast.Expr) string {
 		if x.Op == token.AND {
 			if cl, ok := x.X.(*ast.CompositeLit); ok {
 				return t.expr(cl) // &T{...}: the pointer is the value (no aliasing in the translated subset)
+			}
+			if id, ok := x.X.(*ast.Ident); ok {
+				if _, isStruct := t.p.info.Types[id].Type.Underlying().(*types.Struct); isStruct {
+					return name(id.Name) // &local: the value as it is now (accepted in return position: no later writes)
+				}
 			}
 		}
 		switch x.Op {
@@ -2078,7 +2100,9 @@ func (t *tr) callExpr(c *ast.CallExpr, tv types.TypeAndValue) string {
 	// opaque: error and string producing calls (fmt.Errorf, fmt.Sprintf ...) feed only panics / OnErr
 	if tv.Type != nil {
 		if tv.Type.String() == "error" {
-			return "()"
+			if g := t.callee(t.p, c); g == nil || t.funcs[g] == nil {
+				return "true" // fmt.Errorf, errors.New ...: some non-nil error
+			}
 		}
 		if b, ok := tv.Type.Underlying().(*types.Basic); ok && b.Kind() == types.String {
 			return "\"\""
